@@ -198,11 +198,8 @@ def _optimum_component(st, cap_nodes):
     n = len(st)
     if n == 0:
         return 0, 0
-    order = sorted(range(n), key=lambda a: (-len(adj[a]), a))
+    order = sorted(range(n), key=lambda a: (-len(adj[a]), -st[a][2], a))
     nts = [2 * st[a][2] for a in range(n)]
-    suffix = [0] * (n + 1)
-    for pos in range(n - 1, -1, -1):
-        suffix[pos] = suffix[pos + 1] + nts[order[pos]]
     best = [None]
     nodes = [0]
     level = [None] * n
@@ -211,14 +208,28 @@ def _optimum_component(st, cap_nodes):
     class Cap(Exception):
         pass
 
+    def optimistic(pos):
+        """Upper bound on what the still unassigned stems can add: each on the lowest level not taken by an
+        already assigned crossing stem (ignores conflicts among the unassigned ones)."""
+        total = 0
+        for q in range(pos, n):
+            a = order[q]
+            used = {level[b] for b in adj[a] if level[b] is not None}
+            lev = 0
+            while lev in used:
+                lev += 1
+            total += nts[a] if lev == 0 else -lev * nts[a]
+        return total
+
     def rec(pos, value):
         nodes[0] += 1
         if nodes[0] > cap_nodes:
             raise Cap()
-        if best[0] is not None and value + suffix[pos] <= best[0]:
-            return
         if pos == n:
-            best[0] = value
+            if best[0] is None or value > best[0]:
+                best[0] = value
+            return
+        if best[0] is not None and value + optimistic(pos) <= best[0]:
             return
         a = order[pos]
         used = {level[b] for b in adj[a] if level[b] is not None}
